@@ -265,6 +265,8 @@ class History:
                 if info in ('int', 'size_t'):
                     return str(int(text))
                 if info == 'double':
+                    if re.match(r'^[\d\.\s\+\-\*\(\)eE]+$', text):
+                        return fmt_double(float(eval(text, {'__builtins__': {}})))
                     return fmt_double(float(text))
                 if info == 'bool':
                     return text
